@@ -99,7 +99,9 @@ def run(rep, tier, seed):
                               "LR parser panics (actions(..)[0] on an empty cell) when a custom lexer returns a token "
                               "kind the state does not expect", base)
             else:
-                rep.violation("panic:" + msg[:60].replace(" ", "_"), "parser panicked", base)
+                import re as _re
+                norm = _re.sub(r"'[^']*'", "'_'", _re.sub(r"[0-9]+", "N", msg))[:80].replace(" ", "_")
+                rep.violation("panic:" + norm, "parser panicked", base)
         else:
             if algo == "LR" and acyclic is False:
                 rep.violation("lr-reduce-cycle", "accepted grammar whose LR parser never returns (reduction cycle; "
